@@ -119,12 +119,16 @@ class PandasCheckBackend(BaseCheckBackend):
             if self.check.ignore_na and check_obj[key].hasnans:
                 return check_obj[key].dropna()
             return check_obj[key]
-        return cast(
+        groups = cast(
             Dict[str, pd.DataFrame],
             self._format_groupby_input(
                 self.groupby(check_obj)[key], self.check.groups
             ),
         )
+        if self.check.ignore_na:
+            # null values are ignored within every group as well
+            groups = {k: v.dropna() for k, v in groups.items()}
+        return groups
 
     def preprocess_table(
         self,
